@@ -11,10 +11,11 @@
    cells are only ever appended or overwritten, never removed), a scope = list of (frame id, height), the frames
    searched innermost first exactly like Scope.get/localGet/set walk Vars and then parents.  The height is the
    number of cells the frame had when the scope was formed: the reference evaluator only sees that prefix (lexical
-   scoping), the Go code sees the whole map (a closure made while a dolist/dotimes/do* frame is still being filled
-   later sees the cells added afterwards).  No definition in this file is mode-dependent except through the small
-   functions [store_red], [locate_m], [short_args]:
-   they are the complete list of places where M and S differ.
+   scoping), the Go code sees the whole map.  (Before the repairs C01-12/13 a closure made while a dolist / dotimes /
+   do* scope was still being filled later saw the cells added afterwards; now every frame is complete when the first
+   scope over it is formed, and the two views agree on every state a program of source forms reaches.)  No definition
+   in this file is mode-dependent except through the small functions [store_red], [locate_m], [short_args]: they are
+   the complete list of places where M and S differ.
 
    Side effects are calls of the harness-defined function (tr k e): evaluates e, appends k to the trace, returns
    the (primary) value of e.  No proofs in this file. *)
